@@ -389,6 +389,42 @@ func c01PayoutMutants(c *fw.Ctx, s *chain.Sim, p chain.BlockPlan, rp blockReplay
 			res.Violate(fw.Violation{Key: "c01-fees-not-in-payout:accepted:" + kind, What: fmt.Sprintf("a block whose miner payout is %v instead of reward + fees = %v (v1 fees %v, v2 fees %v) was accepted", v, full, v1fees, v2fees), Replay: rp, Expected: "rejected", Observed: "accepted"})
 		}
 	}
+	// a same-block spend that claims MORE than the output it spends holds: from the ephemeral-output fix height on this
+	// must be rejected (below it is the documented legacy window: counted)
+	if p.Block.V2 != nil {
+		for ti, t := range p.Block.V2.Transactions {
+			if len(t.SiacoinOutputs) == 0 || !s.Spendable(t.SiacoinOutputs[0].Address, true) {
+				continue
+			}
+			out := t.SiacoinOutputs[0]
+			claimed := out.Value.Add(types.Siacoins(1))
+			vt := types.V2Transaction{
+				SiacoinInputs: []types.V2SiacoinInput{{Parent: types.SiacoinElement{
+					ID:            t.SiacoinOutputID(t.ID(), 0),
+					StateElement:  types.StateElement{LeafIndex: types.UnassignedLeafIndex},
+					SiacoinOutput: types.SiacoinOutput{Value: claimed, Address: out.Address},
+				}}},
+				SiacoinOutputs: []types.SiacoinOutput{{Value: claimed, Address: out.Address}},
+			}
+			if !s.ResignV2(&vt) {
+				continue
+			}
+			mb := chain.DeepCopyBlock(p.Block)
+			mb.Timestamp = p.Block.Timestamp
+			// later transactions may spend that output themselves: keep the prefix only
+			mb.V2.Transactions = append(mb.V2.Transactions[:ti+1:ti+1], vt)
+			s.Seal(&mb, p.Miner)
+			var err error
+			panicked, _ := fw.Recover(func() { err = consensus.ValidateBlock(s.Tip, mb, chain.CopySupp(p.Supp)) })
+			window := s.ChildHeight() < s.Net.HardforkV2.EphemeralOutputHeight
+			res.Count(fmt.Sprintf("ephemeral-forged-value:legacy-window=%v:accepted=%v", window, err == nil && !panicked))
+			res.Eval(fmt.Sprintf("ephforge/%s/%d/%d", rp.Mode, rp.Seed, rp.Height), true)
+			if err == nil && !panicked && !window {
+				res.Violate(fw.Violation{Key: "c01-supply-created:ephemeral-forged-value", What: fmt.Sprintf("a block in which a same-block spend claims %v for an output holding %v was accepted at height %d (ephemeral-output fix height %d)", claimed, out.Value, s.ChildHeight(), s.Net.HardforkV2.EphemeralOutputHeight), Replay: rp, Expected: "rejected", Observed: "accepted"})
+			}
+			break
+		}
+	}
 	if !v1fees.IsZero() {
 		try("without-v1-fees", full.Sub(v1fees))
 	}
